@@ -32,7 +32,7 @@ RULE += (
 ASSUMPTIONS = ["bodies are deterministic, so cached wrappers (alru_cache, acached_per_instance, deduplicate) return the twin's value on every call"]
 UNIT_TIMEOUT = {"quick": 200, "thorough": 1200}
 
-DECOS = ["asynq", "pure", "proxy", "pair", "proxy_pair", "mad", "mad_pure", "dedup", "dedup_pair", "aretry", "alru", "per_instance"]
+DECOS = ["asynq", "pure", "proxy", "pair", "proxy_pair", "mad", "mad_pure", "mad_plainwrap", "dedup", "dedup_pair", "aretry", "alru", "per_instance"]
 BODIES = ["plain", "gen", "batch", "reenter", "result"]
 NO_REENTER = ("proxy", "proxy_pair")  # their bodies only build a future; nothing runs "inside" them (nor hands back a result)
 PATTERNS = [
@@ -63,6 +63,7 @@ SUPPORTED = {
     "proxy_pair": ["function", "method_inst", "method_falsy_inst", "method_class_explicit", "method_subclass_inst"],
     "mad": list(BINDINGS),
     "mad_pure": list(BINDINGS),
+    "mad_plainwrap": list(BINDINGS),
     "dedup": list(BINDINGS),
     # (stacking is not among the statement's combinations for classmethods: sync_fn is bound by the pair's own
     #  __get__, which an outer decorator's binder bypasses)
@@ -228,6 +229,15 @@ def build(deco, body, rt):
             return async_proxy(sync_fn=mk_sync(kind))(fn)
         if deco == "mad":
             return mad(A()(fn))
+        if deco == "mad_plainwrap":
+            # a decorator whose wrapper is an ORDINARY function (a logging / counting decorator) that hands back the
+            # wrapped call's future - all make_async_decorator asks of it
+            inner_fn = A()(fn)
+
+            def passing(*args, **kwargs):
+                return inner_fn.asynq(*args, **kwargs)
+
+            return make_async_decorator(inner_fn, passing, "passing")
         if deco == "mad_pure":
             # the same generic decorator over a PURE async function: the result is still an ordinary (non-pure) one
             return mad_generic(A(pure=True)(fn))
